@@ -557,4 +557,73 @@ theorem direct_C01_accepts {n c : Nat} {g : G Label Hex} {r : R} {P : List (Nat 
     · exact b2
 
 
+theorem assocGet_map_self {β} (l : List Nat) (f : Nat → β) (v : Nat) (hv : v ∈ l) :
+    assocGet (l.map (fun w => (w, f w))) v = some (f v) := by
+  unfold assocGet
+  induction l with
+  | nil => cases hv
+  | cons x xs ih =>
+    simp only [List.map_cons, List.find?_cons]
+    by_cases hx : x = v
+    · subst hx; simp
+    · simp only [hx, decide_false]
+      simp only [List.mem_cons] at hv
+      rcases hv with rfl | hv
+      · exact absurd rfl hx
+      · exact ih hv
+
+theorem assocGet_filterMap_self {β} (l : List Nat) (f : Nat → Option β) (v : Nat) (hv : v ∈ l) :
+    assocGet (l.filterMap (fun w => (f w).map (fun d => (w, d)))) v = f v := by
+  unfold assocGet
+  induction l with
+  | nil => cases hv
+  | cons x xs ih =>
+    simp only [List.filterMap_cons]
+    by_cases hx : x = v
+    · subst hx
+      cases hf : f x with
+      | none =>
+        simp only [Option.map_none]
+        -- no later entry has key x with a value, because the values come from `f`
+        have : ∀ (ys : List Nat), (ys.filterMap (fun w => (f w).map (fun d => (w, d)))).find? (fun e => decide (e.1 = x)) = none := by
+          intro ys
+          induction ys with
+          | nil => rfl
+          | cons y ys ih2 =>
+            simp only [List.filterMap_cons]
+            cases hy : f y with
+            | none => simpa using ih2
+            | some d =>
+              simp only [Option.map_some, List.find?_cons]
+              by_cases hyx : y = x
+              · subst hyx; rw [hf] at hy; cases hy
+              · simp only [hyx, decide_false]; exact ih2
+        rw [this xs]; rfl
+      | some d => simp
+    · simp only [List.mem_cons] at hv
+      rcases hv with rfl | hv
+      · exact absurd rfl hx
+      · cases hf : f x with
+        | none => simpa using ih hv
+        | some d =>
+          simp only [Option.map_some, List.find?_cons, hx, decide_false]
+          exact ih hv
+
+/-- the history tables re-created from a reference state (after `merge`, `slice` and scripts, whose internal calls
+    the direct monitors do not see one by one) are that state's tables -/
+theorem histRel_ofR (r : R) (p0 : List (Nat × Nat)) (b0 issued : List Nat) (hi : ∀ i ∈ issued, i < r.pos) :
+    HistRel (Hist.ofR r p0 b0 issued) r := by
+  refine ⟨?_, ?_, ?_, hi⟩
+  · intro v hv
+    simp only [Hist.ofR]
+    rw [assocGet_map_self r.ids r.edg v hv]; rfl
+  · intro v hv
+    simp only [Hist.ofR]
+    have := assocGet_filterMap_self r.ids (fun w => (r.dat w).map (·.toBytes)) v hv
+    simp only [Option.map_map, Function.comp_def] at this
+    exact this
+  · intro v hv
+    simp only [Hist.ofR, List.mem_filter, hv, true_and]
+
+
 end Props.Driver
